@@ -6,6 +6,7 @@ package main
 import (
 	"fmt"
 	"go/types"
+	"strconv"
 	"strings"
 
 	"golang.org/x/tools/go/ssa"
@@ -246,7 +247,83 @@ func (in *Interp) errorsAs(err IfaceV, target IfaceV) bool {
 	panic(budgetErr{"errors.As chain too long"})
 }
 
-func mFmtString(in *Interp, fn *ssa.Function, args []Value) Value { return in.strConst("<fmt>") }
+func mFmtString(in *Interp, fn *ssa.Function, args []Value) Value {
+	if fn.Name() == "Sprintf" {
+		if format, ok := args[0].(StrV).Conc(); ok {
+			return in.sprintf(format, variadicArgs(in, args[1]))
+		}
+	}
+	return in.strConst("<fmt>")
+}
+
+// sprintf implements the simple verbs on simple operands; anything else
+// becomes the opaque fragment "<?>" (a property that depends on such text is
+// caught by the native replay as an engine mismatch, never passed).
+func (in *Interp) sprintf(format string, args []Value) StrV {
+	var out []*Term
+	lit := func(s string) {
+		out = append(out, in.strConst(s).b...)
+	}
+	ai := 0
+	for i := 0; i < len(format); i++ {
+		c := format[i]
+		if c != '%' {
+			out = append(out, in.tb.Const(8, uint64(c)))
+			continue
+		}
+		i++
+		if i >= len(format) {
+			lit("%!(NOVERB)")
+			break
+		}
+		verb := format[i]
+		if verb == '%' {
+			lit("%")
+			continue
+		}
+		if ai >= len(args) {
+			lit("<?>")
+			continue
+		}
+		a := args[ai]
+		ai++
+		if iv, ok := a.(IfaceV); ok {
+			a = iv.v
+			if iv.t == nil {
+				lit("<nil>")
+				continue
+			}
+		}
+		switch x := a.(type) {
+		case StrV:
+			switch verb {
+			case 's', 'v':
+				out = append(out, x.b...)
+			case 'q':
+				if cs, ok := x.Conc(); ok {
+					lit(strconv.Quote(cs))
+				} else {
+					lit("<?>")
+				}
+			default:
+				lit("<?>")
+			}
+		case *Term:
+			if !x.IsConst() || (verb != 'd' && verb != 'v') {
+				lit("<?>")
+				continue
+			}
+			if x.w == 0 {
+				lit(strconv.FormatBool(x.val != 0))
+			} else {
+				lit("<?>") // signedness is not known here
+			}
+		default:
+			lit("<?>")
+		}
+	}
+	return StrV{out}
+}
 
 func mNop(in *Interp, fn *ssa.Function, args []Value) Value { return in.zeroResults(fn) }
 
@@ -335,7 +412,15 @@ func init() {
 			in.knowns = append(in.knowns, knownCond{k, a[1].(*Term)})
 			return nil
 		},
-		"zzverif.Observe": func(in *Interp, fn *ssa.Function, a []Value) Value { return nil },
+		"zzverif.Observe": func(in *Interp, fn *ssa.Function, a []Value) Value {
+			l, _ := a[0].(StrV).Conc()
+			v := a[1]
+			if iv, ok := v.(IfaceV); ok {
+				v = iv.v
+			}
+			in.observed = append(in.observed, l+"="+in.render(v))
+			return nil
+		},
 		"zzverif.And":     func(in *Interp, fn *ssa.Function, a []Value) Value { return in.tb.And(a[0].(*Term), a[1].(*Term)) },
 		"zzverif.Or":      func(in *Interp, fn *ssa.Function, a []Value) Value { return in.tb.Or(a[0].(*Term), a[1].(*Term)) },
 		"zzverif.Not":     func(in *Interp, fn *ssa.Function, a []Value) Value { return in.tb.Not(a[0].(*Term)) },
@@ -595,4 +680,49 @@ func mFprint(in *Interp, fn *ssa.Function, a []Value) Value {
 	}
 	r := in.callFunction(m, []Value{w.v, in.mkByteSlice(in.strConst("<fmt>").b)}, nil)
 	return r
+}
+
+// render prints a value the way fmt %v would for the simple kinds used by Observe.
+func (in *Interp) render(v Value) string {
+	switch x := v.(type) {
+	case *Term:
+		if !x.IsConst() {
+			return "<sym>"
+		}
+		if x.w == 0 {
+			if x.val != 0 {
+				return "true"
+			}
+			return "false"
+		}
+		return fmt.Sprint(x.val)
+	case StrV:
+		if s, ok := x.Conc(); ok {
+			return s
+		}
+		return "<symstr>"
+	case SliceV:
+		parts := []string{}
+		for _, e := range in.sliceElems(x) {
+			parts = append(parts, in.render(e))
+		}
+		return "[" + strings.Join(parts, " ") + "]"
+	case IfaceV:
+		if x.t == nil {
+			return "<nil>"
+		}
+		return in.render(x.v)
+	case PtrV:
+		if x.c == nil {
+			return "<nil>"
+		}
+		return "&" + in.render(in.load(x.c))
+	case *StructV:
+		parts := []string{}
+		for _, e := range x.f {
+			parts = append(parts, in.render(e))
+		}
+		return "{" + strings.Join(parts, " ") + "}"
+	}
+	return describe(v)
 }
